@@ -70,8 +70,8 @@ class Ctx:
         return ls[line - 1].strip() if 0 < line <= len(ls) else ""
 
 
-def load_program(root, extra_flags=()):
-    fx, info = factsmod.extract(root, extra_flags)
+def load_program(root, extra_flags=(), save_tree=True, jobs=16):
+    fx, info = factsmod.extract(root, extra_flags, save_tree=save_tree, jobs=jobs)
     return Program(fx, info)
 
 
@@ -227,7 +227,7 @@ def run_witness(prop, w, root):
         if not okc:
             return "fail", "witness no longer compiles with the build's warning flags: " + errs
         try:
-            prog = load_program(tree)
+            prog = load_program(tree, save_tree=False, jobs=4)
             ctx = run_rules(prop, prog, tree, "quick")
             fails = [i for i in ctx.instances if not i["ok"]]
             # findings already present on the reference tree are not the witness's doing
@@ -320,11 +320,15 @@ def main(argv):
         if tier == "quick" and len(ws) > 2:
             rnd = random.Random(seed)
             ws = rnd.sample(ws, 2)
-        for w in ws:
-            st, detail = run_witness(prop, w, a.root)
-            wres.append(dict(id=w["id"], status=st, detail=detail))
-            if st == "fail":
-                wbroken.append("%s: %s" % (w["id"], detail))
+        if ws:
+            import concurrent.futures
+            with concurrent.futures.ProcessPoolExecutor(max_workers=min(8, len(ws))) as ex:
+                futs = [ex.submit(run_witness, prop, w, a.root) for w in ws]
+                for w, fu in zip(ws, futs):
+                    st, detail = fu.result()
+                    wres.append(dict(id=w["id"], status=st, detail=detail))
+                    if st == "fail":
+                        wbroken.append("%s: %s" % (w["id"], detail))
 
     # replay files + verdict lines
     rdir = os.path.join(VERIF, "replays", prop)
